@@ -182,3 +182,7 @@ Fixpoint check_from {A} (agree spec : A -> bool) (l : list A) (i : Z) : list (Z 
   end.
 Definition check_cases {A} (agree spec : A -> bool) (l : list A) : list (Z * Z) :=
   check_from agree spec l 0.
+
+(* checks evaluated by the harness on the implementation alone (e.g. interoperation
+   with an independent implementation): the case is the verdict *)
+Definition check_bools := check_cases (fun _ : bool => true) (fun b : bool => b).
